@@ -143,7 +143,7 @@ theorem compiled_shape {m : Model (Ext K)} {tol : Ext K} {maxSteps : Nat} {lm : 
     lm.objective.length = lm.vars.length ∧ (∀ r ∈ lm.rows, r.coeffs.length = lm.vars.length) ∧
     (∀ c ∈ lm.objective, StdSem.isFin c) ∧ StdSem.isFin lm.offset ∧
     (∀ r ∈ lm.rows, (∀ c ∈ r.coeffs, StdSem.isFin c) ∧ StdSem.isFin r.rhs) := by
-  obtain ⟨an, _, hlin⟩ := (compile_ok_iff m tol maxSteps lm).mp h
+  obtain ⟨_, an, _, hlin⟩ := (compile_ok_iff m tol maxSteps lm).mp h
   have hd : DomainNodup (an.applyToDomain m.domain) = true := by
     rw [DomainNodup, WFList.noDup_iff]
     have : (Analyzer.applyToDomain an m.domain).map (·.name) = m.domain.map (·.name) := by
